@@ -136,6 +136,28 @@ def run(chk):
                 chk.violation(f"C10|{e}|{ot}|decode-differs", f"{e}(output_type={ot}): decoding the matrix does not give the non-zero triplets",
                               {**meta, "output_type": ot, "decoded": str(back)[:1500], "want": str(want_back)[:1500]})
 
+    # ---- matrix formats with a NON-INTEGER custom distance: the value d itself must sit at [r, q]
+    from Levenshtein import distance as levd
+    half = lambda a, b: levd(a, b) / 2  # noqa
+    for xs in inputs[:6]:
+        for e in ENGINES:
+            trip = core.call_real(lambda: fns[e](list(xs), max_edits=2, custom_distance=half, max_custom_distance=1.0))
+            if trip[0] != "ok":
+                continue
+            want = [[0.0] * len(xs) for _ in xs]
+            for q, r, d in trip[1]:
+                want[int(r)][int(q)] = float(d)
+            for ot in ("coo_matrix", "ndarray"):
+                real = core.call_real(lambda: fns[e](list(xs), max_edits=2, custom_distance=half, max_custom_distance=1.0, output_type=ot))
+                chk.case(nontrivial_key=("float-format", e, ot, str(xs)) if trip[1] else None)
+                chk.count(f"format-float:{ot}")
+                got = None
+                if real[0] == "ok":
+                    got = np.asarray(real[1].toarray() if ot == "coo_matrix" else real[1]).astype(float).tolist()
+                if got != want:
+                    chk.violation(f"C10|{e}|{ot}|float-distance-not-encoded", f"{e}(output_type={ot}) with a non-integer custom distance does not "
+                                  "hold d at [r, q] (e.g. 0.5 truncated to 0)", {"engine": e, "xs": list(xs), "real": str(got)[:1500], "want": str(want)[:1500]})
+
     # ---- invalid arguments: must be rejected (any error); accept/reject compared with the model
     good = ["CAAA", "CADA"]
     dist0 = lambda a, b: 0 if a == b else 1  # noqa
